@@ -48,8 +48,13 @@ class CombineOutputs(Operation):
             ):
                 continue
             copy_into = self._output_path / dep_id.name
+            # N.B. A directory under the output path may itself be a symlink
+            # (e.g., a package's outputs moved to another disk). A relative
+            # link is resolved against the real location of its directory.
             relative_to_target = pathlib.Path(
-                os.path.relpath(dep_dir, copy_into.parent)
+                os.path.relpath(
+                    os.path.realpath(dep_dir), os.path.realpath(copy_into.parent)
+                )
             )
             # N.B. `exists()` is `False` for a symlink whose target is gone
             # (e.g., the version it pointed to was removed by `cond gc`).
